@@ -11,9 +11,9 @@ git diff -- jaxtyping > /tmp/$ID.patch
 /venv/bin/python -m pytest -q -p no:cacheprovider --timeout=900 -x --deselect test/test_decorator.py::test_mlx --deselect "test/test_generators.py::test_generators_return_no_annotations[False-beartype]" --deselect "test/test_generators.py::test_generators_simple[False-beartype]" > /tmp/$ID.pytest 2>&1
 TESTS=$(tail -1 /tmp/$ID.pytest)
 /venv/bin/python demo.py > /tmp/$ID.demo_with 2>&1; RC_WITH=$?
-git stash -q -- jaxtyping
+git apply -R /tmp/$ID.patch
 /venv/bin/python demo.py > /tmp/$ID.demo_without 2>&1; RC_WITHOUT=$?
-git stash pop -q
+git apply /tmp/$ID.patch
 echo "$ID tests: $TESTS | demo with change rc=$RC_WITH, without rc=$RC_WITHOUT"
 case "$TESTS" in *failed*|*error*) echo "$ID: TESTS FAIL -> not kept"; exit 1;; esac
 [ $RC_WITH -ne 0 ] && [ $RC_WITHOUT -eq 0 ] || { echo "$ID: demo does not discriminate -> not kept"; exit 1; }
